@@ -100,12 +100,35 @@ def run(ctx):
     di_m = calc.methods["distributions"]
 
     def distributions(base):
+        """HISTORY: the calculator is constructed (interpreted constructor), has already produced the distributions for
+        ANOTHER tested value (another sqrt(qA)), and is asked again: the objects returned now are looked up among all
+        objects ever made, so one kept from the earlier call shows with the earlier call's arguments."""
         made = []
-        ext = {"AsymptoticTestStatDistribution": lambda args, kw: (made.append((args, kw)) or Obj(f"dist{len(made)}"))}
-        attrs = {"calc_base_dist": base, "sqrtqmuA_v": a}
-        it = Interp({"poi_test": Poly.atom("mu_test")}, attrs, {aname: Fraction(2), "NEGINF": NEG}, cls_name=calc.name, externals=ext)
-        out = it.run(A.strip_docstring(di_m.node.body))
-        return made, out
+
+        def ctor(args, kw):
+            o = Obj(f"dist{len(made) + 1}")
+            made.append((args, kw, o))
+            return o
+
+        ext = {"AsymptoticTestStatDistribution": ctor, "get_test_stat": lambda args, kw: Obj("teststat_func"), "HypoTestFitResults": lambda args, kw: Obj("fitresults")}
+        attrs = {}
+        ienv = {"data": Obj("data"), "pdf": Obj("pdf"), "init_pars": Obj("init"), "par_bounds": Obj("bounds"), "fixed_params": Obj("fixed"), "test_stat": "qtilde", "calc_base_dist": base}
+        Interp(ienv, attrs, {}, cls_name=calc.name, externals=ext).run(A.strip_docstring(calc.methods["__init__"].node.body))
+        a_other = fn("sqrt", Poly.atom("QA_other"))
+        reg_ = {aname: Fraction(2), str(a_other): Fraction(3), "NEGINF": NEG}
+        attrs["sqrtqmuA_v"] = a_other
+        Interp({"poi_test": Poly.atom("mu_other")}, attrs, reg_, cls_name=calc.name, externals=ext).run(A.strip_docstring(di_m.node.body))
+        attrs["sqrtqmuA_v"] = a
+        out = Interp({"poi_test": Poly.atom("mu_test")}, attrs, reg_, cls_name=calc.name, externals=ext).run(A.strip_docstring(di_m.node.body))
+        if not (isinstance(out, (tuple, list)) and len(out) == 2):
+            raise Undecided("distributions() does not return a pair")
+        mine = []
+        for o in out:
+            rec_ = next(((ar, kw) for ar, kw, ob in made if ob is o), None)
+            if rec_ is None:
+                raise Undecided("distributions() returns something that is not a distribution object it constructed")
+            mine.append(rec_)
+        return mine, [Obj("dist1"), Obj("dist2")]
 
     try:
         made, out = distributions("normal")
@@ -161,13 +184,33 @@ def run(ctx):
         def __missing__(self, k):
             return Fraction(self.sign, 1000)
 
+    # every name get_test_stat accepts, with the KIND of the function it resolves to: the calculator must transform a
+    # statistic computed by qmu / q0 with the single form and one computed by qmu_tilde with the two-branch form,
+    # whatever the name is spelled like
+    kinds = {"qmu": "q", "q0": "q0", "qmu_tilde": "qtilde"}
+    stat_names = []
+    UT_ = "src/pyhf/infer/utils.py"
+    if repo.has_func(UT_, "get_test_stat"):
+        gts = repo.func(UT_, "get_test_stat")
+        ctx.touch(gts)
+        for n_ in ast.walk(gts.node):
+            if isinstance(n_, ast.Dict) and n_.keys and all(isinstance(A.const_value(k_), str) for k_ in n_.keys):
+                for k_, v_ in zip(n_.keys, n_.values):
+                    target = (A.dotted(v_) or "").split(".")[-1]
+                    if target in kinds:
+                        stat_names.append((A.const_value(k_), kinds[target]))
+                    else:
+                        ctx.unrecognised(r1, gts, f"get_test_stat[{A.const_value(k_)!r}]", f"resolves to `{A.short(v_, 30)}`, which is not one of qmu / q0 / qmu_tilde")
+    for must in (("q", "q"), ("q0", "q0"), ("qtilde", "qtilde")):
+        if must not in stat_names:
+            stat_names.append(must)
     cases = []
-    for stat in ("q", "q0", "qtilde"):
+    for stat, kind in stat_names:
         for label, reg in (("sqrtq<sqrtqA", {sname: Fraction(1), aname: Fraction(2)}), ("sqrtq>sqrtqA", {sname: Fraction(3), aname: Fraction(2)})):
             for sign in (1, -1):
-                cases.append((stat, label + (", fitted values > 0" if sign > 0 else ", fitted values < 0"), _FitSign(reg, sign)))
+                cases.append((stat, kind, label + (", fitted values > 0" if sign > 0 else ", fitted values < 0"), _FitSign(reg, sign)))
     results = {}
-    for stat, label, reg in cases:
+    for stat, kind, label, reg in cases:
         site = f"{CALC}::AsymptoticCalculator[{stat}, {label}]"
         try:
             T, attrs, seen = teststat(stat, reg)
@@ -181,7 +224,7 @@ def run(ctx):
             ctx.violated(r1, ts_m, f"teststatistic[{stat}] stores sqrtqmuA_v", "the value stored for the distributions is not sqrt of the Asimov statistic", expected=str(a), found=str(attrs.get("sqrtqmuA_v")))
         results[(stat, label)] = T
         results[(stat, label.split(",")[0])] = T
-        false_branch = stat == "qtilde" and label.startswith("sqrtq>sqrtqA")
+        false_branch = kind == "qtilde" and label.startswith("sqrtq>sqrtqA")
         want_sb = -(Q + QA) / (2 * a) if false_branch else -s
         want_b = -(Q - QA) / (2 * a) if false_branch else -(s - a)
         region = dict(reg)
